@@ -103,7 +103,7 @@ fn c01_8a_witness_f4_zero_length_delay() {
     core::mem::forget(info); core::mem::forget(d);
 }
 
-// @ob id=C16.3c,C14.6c strength=bounded tier=quick bound="a delay of 2 frames with one probe effect in its feedback loop; rates 32768 -> 65536; one 3-frame call (two sub-chunks)" fn=effect/delay.rs::<Delay as Effect>::{init,on_change_sample_rate,on_start_processing,process}
+// @ob id=C16.3c,C14.6c strength=bounded tier=quick timeout=2400 bound="a delay of 2 frames with one probe effect in its feedback loop; rates 32768 -> 65536; one 3-frame call (two sub-chunks)" fn=effect/delay.rs::<Delay as Effect>::{init,on_change_sample_rate,on_start_processing,process}
 // @req a delay whose feedback loop holds an effect
 // @ens the nested effect is initialised with the device rate, told every new rate (effects inside a delay's feedback loop process with the rate in force), started at every callback, and asked for exactly the frames the delay line hands it (once per sub-chunk, lengths summing to the input length)
 #[kani::proof]
